@@ -1,6 +1,7 @@
 package checks
 
 import (
+	"bytes"
 	"encoding/binary"
 	"fmt"
 	"strings"
@@ -252,6 +253,41 @@ func (ch c05) Run(c *core.Ctx) {
 	}
 	if c.Begin(90000001) {
 		ch.endedSession(c)
+	}
+	// a Query whose statement reads COPY data receives a CopyData message above the message limit (alone, behind
+	// accepted data, with CopyDone behind it): the statement fails, and the cycle of that Query is still one
+	// ErrorResponse and one ReadyForQuery - then the next Query has its own
+	if c.Begin(90000002) {
+		for v := 0; v < 4 && c.NViol() < 10; v++ {
+			plan := &hs.CopyPlan{Format: wire.TextFormat, MaxReads: -1, OnErr: "propagate"}
+			sess := &hs.Sess{Progs: map[string]*hs.Prog{
+				"copy": {Stmts: []*hs.Stmt{{ID: "copy", Cols: textCols(1), Ops: []hs.Op{{K: "copy", Copy: plan}}}}},
+				"next": {Stmts: []*hs.Stmt{{ID: "next", Cols: textCols(1), Ops: []hs.Op{{K: "row", Vals: []any{"n"}}, {K: "complete", Tag: "SELECT 1"}}}}}}}
+			cl := hs.NewClient(env.Dial(sess))
+			if err := cl.StartupOK("u"); err != nil {
+				break
+			}
+			in := pg.Query("copy")
+			if v%2 == 1 {
+				in = append(in, pg.CopyData([]byte("accepted line\n"))...)
+			}
+			in = append(in, pg.CopyData(bytes.Repeat([]byte("x"), 1<<16+10+v))...)
+			if v >= 2 {
+				in = append(in, pg.CopyDone()...)
+			}
+			out, closed := cl.Step(append(in, pg.Query("next")...))
+			if hangCheck(c, cl, nil) {
+				break
+			}
+			r := pg.Types(mustMsgs(out))
+			c.Count("oversized_copydata_inside_a_simple_query", 1)
+			c.Eval(fmt.Sprintf("oversized CopyData in a simple Query %d", v), true)
+			if closed || strings.Count(r, "Z") != 2 || strings.Count(r, "E") != 1 || !strings.HasSuffix(r, "TDCZ") {
+				c.Violate("transcript", "the cycle of a Query whose COPY statement met an oversized message is not one ErrorResponse and one ReadyForQuery", fmt.Sprintf("variant %d: reply %q closed=%v; want T G E Z, then T D C Z for the next Query", v, r, closed), nil)
+				break
+			}
+			cl.Finish()
+		}
 	}
 	var cl *hs.Client
 	var sess *hs.Sess
